@@ -97,6 +97,7 @@ def check_merge(chk: Check) -> None:
             nontriv = sum(1 for c in sets_counts if any(c.values())) >= 2
             if nontriv:
                 chk.nontrivial((form, sig_sc))
+            before = [_project(x) for x in sets]
             try:
                 if form == "or":
                     acc = sets[0]
@@ -105,9 +106,18 @@ def check_merge(chk: Check) -> None:
                 else:
                     acc = cls()
                     for s in sets:
-                        acc |= copy.deepcopy(s)
+                        acc |= s
                 got = _project(acc)
                 err = None
+                # combining must not alter its operands (result files are loaded once and reused)
+                after = [_project(x) for x in sets]
+                if after != before:
+                    chk.violation(
+                        f"C12|merge|{form}|operand-altered",
+                        f"result sets with per-key counts {sig_sc} ({cls.__name__}) combined with `{'|' if form == 'or' else '|='}`: an operand was modified by the merge: "
+                        f"{[_fmt(b) for b in before]} -> {[_fmt(a) for a in after]}",
+                        {"form": form, "class": cls.__name__, "counts": [{f"{k[0]}/{k[1]}": n for k, n in c.items()} for c in sets_counts]},
+                    )
             except Exception as ex:  # noqa: BLE001 - an exception while combining result sets loses every finding
                 got, err = None, f"{type(ex).__name__}: {ex}"
             if got != want:
@@ -164,7 +174,9 @@ def _sonar_json(doc, entries, fi: int = 0):
             lst = []
             for pos, ix in enumerate(idxs, 1):
                 e = entries[ix - 1]
-                item = {"key": f"{fi}-{tag}-{pos}" if fi else f"{tag}-{pos}", "status": e["status"], "component": f"proj:{FILES[e['file']]}", "message": "m"}
+                # Sonar components are `<project key>:<path>`; the project key may be absent or itself contain colons
+                prefix = ("proj:", "", "com.acme:webapp:")[(pos + len(idxs) + fi) % 3]
+                item = {"key": f"{fi}-{tag}-{pos}" if fi else f"{tag}-{pos}", "status": e["status"], "component": f"{prefix}{FILES[e['file']]}", "message": "m"}
                 item["rule" if tag == "i" else "ruleKey"] = SONAR_RULE[e["rule"]]
                 if e["hasRange"]:
                     item["textRange"] = _sonar_loc(tag, pos, fi)
